@@ -258,9 +258,16 @@ class G:
                 v += " = " + ("{" + ", ".join(self.literal() for _ in range(self.r.randint(0, 3))) + "}" if (ty.endswith("]") or v.endswith("]")) and self.r.random() < 0.7 else self.expr(d + 1))
             decls.append(v)
         return self.member_mods("field") + ty + " " + ", ".join(decls) + ";"
+    def comment(self):
+        """comments of every shape the todo scan has to survive: bare markers, empty comments, markers glued to the
+        comment sign, assignees, block comments closed right after the marker"""
+        return self.r.choice(["// TODO", "//fixme", "// FIXME   ", "//", "/**/", "/* TODO */", "/*FIXME*/", "// TODO(bob): x",
+                              "// todo: y", "/* TODO\n * more\n */", "// TODOS are not todos", "//TODO", "// ", "/* */",
+                              "// FIXME(", "// TODO()", "/** FIXME */", "// \u00e9 TODO later"])
     def class_body(self, d, kind, name="X"):
         if d > self.maxdepth: return "{ }"
         ms = []
+        if self.r.random() < 0.15: ms.append(self.comment())
         for _ in range(self.r.randint(0, 5)):
             r = self.r.random()
             if kind == "interface":
@@ -349,6 +356,7 @@ class G:
         if self.r.random() < 0.05: out.append(";")
         n = 1 if self.r.random() < 0.7 else self.r.randint(0, 3)
         for i in range(n):
+            if self.r.random() < 0.2: out.append(self.comment())
             out.append(self.type_decl(0, name=name if i == 0 else None))
             if self.r.random() < 0.1: out.append("// TODO trailing\n")
         return "\n".join(out) + ("\n" if self.r.random() < 0.9 else "")
